@@ -190,14 +190,31 @@ def cli_scenarios():
         w('tree/pkg/notpy', b'x = 1 + 1\n')
         w('tree/pkg/happy', b'x = 1 + 1\n')
         w('tree/pkg/tiny.py', b'0')
+        siblings = ['m.py.tmp', 'm.py.bak', 'm.py~', 'm.py.orig', 'm.pyc', '.m.py.swp', 'm.py.new', 'n.pyw.tmp']
+        for sname in siblings:
+            w('tree/pkg/' + sname, b'sibling ' + sname.encode())
         rc, out, err = run_cli([os.path.join(tmp, 'tree'), '--in-place'])
         for rel, want in (('m.py', expb), ('n.pyw', expb), ('data.txt', src), ('script', src), ('x.pyc', src), ('notpy', b'x = 1 + 1\n'), ('happy', b'x = 1 + 1\n'),
                           ('tiny.py', b'0')):
             got = r(os.path.join(tmp, 'tree', 'pkg', rel))
             if got != want:
                 failures.append({'scenario': 'in-place tree', 'file': rel, 'got': got.decode('utf-8', 'replace')[:200]})
+        for sname in siblings:
+            sp = os.path.join(tmp, 'tree', 'pkg', sname)
+            if not os.path.exists(sp) or r(sp) != b'sibling ' + sname.encode():
+                failures.append({'scenario': 'in-place tree', 'file': sname, 'got': 'a file next to a module was modified or removed'})
+        extra = sorted(set(os.listdir(os.path.join(tmp, 'tree', 'pkg'))) - set(siblings) - {'m.py', 'n.pyw', 'data.txt', 'script', 'x.pyc', 'notpy', 'happy', 'tiny.py'})
+        if extra:
+            failures.append({'scenario': 'in-place tree', 'got': 'new files left behind: %r' % extra})
         if rc != 0:
             failures.append({'scenario': 'in-place tree', 'rc': rc, 'err': err.decode('utf-8', 'replace')[-300:]})
+        # 3b a module that cannot be read stops the run with a non-zero status
+        w('unreadable/ok.py', src)
+        os.symlink(os.path.join(tmp, 'unreadable', 'does-not-exist'), os.path.join(tmp, 'unreadable', 'broken.py'))
+        rc, out, err = run_cli([os.path.join(tmp, 'unreadable'), '--in-place'])
+        if rc == 0:
+            failures.append({'scenario': 'directory with an unreadable module (dangling symlink broken.py)', 'rc': rc,
+                             'got': 'exit status 0 although a selected module could not be read'})
         # 4 a file that does not parse stops the run and is left alone; later files untouched
         w('bad/a_bad.py', bad)
         w('bad/z_good.py', src)
